@@ -401,8 +401,14 @@ class AutoSerialize:
         elif isinstance(value, (int, float, str, bool, type(None))):
             # Scalars saved as attributes
             group.attrs[name] = value
-        elif hasattr(value, "dtype") and hasattr(value, "item"):
+        elif (
+            hasattr(value, "dtype")
+            and hasattr(value, "item")
+            and not isinstance(value, np.complexfloating)
+        ):
             # Handle numpy scalar types (np.float32, np.int64, etc.)
+            # (complex scalars are not JSON serializable: they use the dill fallback below,
+            # like Python complex numbers)
             group.attrs[name] = value.item()
         elif hasattr(value, "__fspath__") or str(type(value)).startswith("<class 'pathlib."):
             # Handle pathlib.Path objects and other path-like objects
@@ -841,7 +847,14 @@ class AutoSerialize:
         # Helper to handle optional torch tensor restoration
         def maybe_tensor(group, key):
             arr = AutoSerialize._read_array_np(group, key)
-            return torch.from_numpy(arr) if group.attrs.get(f"{key}.torch_save") else arr
+            if group.attrs.get(f"{key}.torch_save"):
+                return torch.from_numpy(arr)
+            # Values saved through the dill fallback are gzip-compressed byte arrays
+            # (same decoding as for attributes in _recursive_load)
+            try:
+                return dill.loads(gzip.decompress(arr.tobytes()))
+            except Exception:
+                return arr
 
         if ctype in ("list", "tuple"):
             # Determine maximum index to reconstruct order and size
